@@ -32,7 +32,9 @@ def explore(ctx):
                  "FILE %s %s %s" % (h("prog"), h("alt.scm"), h(lf.rstrip("\n") if final else lf + "\n")),
                  "RUNBIN %s %s" % (h("prog"), h("alt.scm")),
                  "FILE %s %s %s" % (h("prog"), h("crlf.scm"), h(lf.replace("\n", "\r\n"))),
-                 "RUNBIN %s %s" % (h("prog"), h("crlf.scm"))]
+                 "RUNBIN %s %s" % (h("prog"), h("crlf.scm")),
+                 # the same file named by a relative path with a directory part
+                 "RUNBIN %s %s rel" % (h("prog"), h("main.scm"))]
         cases.append({"lines": lines, "forms": forms, "fault": kind, "fault_index": idx, "eol": repr(eol), "final_newline": final})
         dist[kind or "no fault"] = dist.get(kind or "no fault", 0) + 1
     # special files
@@ -61,6 +63,8 @@ def explore(ctx):
             inproc = il[3].split(" o=")[1]
             if inproc != out:
                 problems.append("the file's output differs from in-process evaluation of the same text")
+        if len(il) >= 9 and il[8] != il[1]:
+            problems.append("the outcome depends on how the file is named (absolute vs relative path): %s / %s" % (il[1], il[8]))
         if len(il) >= 8:
             if il[5] != il[1] or il[7] != il[1]:
                 problems.append("the outcome depends on the line ends or on the final newline: %s / %s / %s" % (il[1], il[5], il[7]))
@@ -77,7 +81,8 @@ def explore(ctx):
         "property_failures": bad,
         "rule": "random displaying programs (definitions, display of computed values, lists, strings, newlines, derived forms) "
                 "with an optional injected fault (8 run-time kinds or a syntactically invalid form) at a random position, "
-                "comments and blank lines, LF or CR LF line ends, with or without final newline; written to a scratch "
+                "comments and blank lines, string literals that span lines with blanks and tabs before the line break, LF or CR LF "
+                "line ends, with or without final newline, named by an absolute and by a relative path; written to a scratch "
                 "directory and run through the built binary from ANOTHER working directory: stdout bytes, exit status and "
                 "the diagnostic's location vs the model; stdout vs in-process evaluation of the same text; the same program "
                 "with the other line-end convention and final-newline choice must give the same result; plus empty, "
